@@ -13,16 +13,16 @@ What the registry/recompose model of `Reflect/Registry.lean` (C16) gives, proved
 * `registration_never_faults`: in the model of the code as it is now, registering ANY type on a
   recomposer with ANY history does not panic (since /repo b19f06c `indexType` has a case for every
   embedded field) — for Go types that are finite trees: a type that EMBEDS ITSELF through a pointer
-  is not a value of `GoType`, and there the Go code recurses for ever (known finding
-  `C06rec-self-embedding`; `self_embedding_unguarded_in_source` pins the source fact);
+  is not a value of `GoType`; there the Go code recursed for ever until /repo 25154ae (finding
+  `C06rec-self-embedding`, fixed; `self_embedding_guarded_in_source` pins the repaired source fact and
+  fails on the source before the commit);
 * `index_total`: every struct type of the model has a field index;
 * `failure_is_history_independent`: whether recomposing a datum into a type without interface slots
   fails does not depend on what the recomposer has seen before (C16);
 * `entry_points_recover`: `(*Recomposer).Recompose` and `NewRecomposer` carry the deferred recover that
   turns a panic into the error result (regenerated from the source);
-* `any_composer_unguarded_in_source`: `registerAnyComposer` builds a new composer only when none is filed
-  under the name, without the type test of `registerComposer` (known finding
-  `C06rec-any-composer-unguarded`).
+* `any_composer_guarded_in_source`: since /repo fd0bfc5 `registerAnyComposer` has the type test of
+  `registerComposer` (finding `C06rec-any-composer-unguarded`, fixed; fails on the source before).
 
 The model is total by construction (Lean functions, fuel-bounded): every model run ends in a value, a
 `panic` (a Go panic, recovered by `Recompose` into its error) or `outside`; it does not tell an error
@@ -62,15 +62,20 @@ theorem entry_points_recover :
     Gen.Reflect.altRecomposeRecovers = true ∧ Gen.Reflect.altNewRecomposerRecovers = true := by
   decide +kernel
 
-/-- the source as it is: the field index builder does not remember the embedded types it is inside
-of — a type that embeds (a pointer to) itself makes it recurse for ever (`C06rec-self-embedding`).
-Applying notes/proposed_fixes/C06rec_self_embedding.md flips this fact; restate then. -/
-theorem self_embedding_unguarded_in_source : Gen.Reflect.altIndexTypeGuardsCycles = false := by
+/-- the source as it is (since /repo 25154ae): the field index builder remembers the embedded types it
+is inside of and does not enter one again — a type that embeds (a pointer to) itself no longer makes
+it recurse for ever (`C06rec-self-embedding`, fixed). On the source before 25154ae the regenerated
+fact is `false` and this theorem fails (there `indexType` called itself for every embedded type). -/
+theorem self_embedding_guarded_in_source : Gen.Reflect.altIndexTypeGuardsCycles = true := by
   decide +kernel
 
-/-- the source as it is: `registerAnyComposer` lacks the type test (`C06rec-any-composer-unguarded`).
-Applying notes/proposed_fixes/C06rec_any_composer_guard.md flips this fact; restate then. -/
-theorem any_composer_unguarded_in_source : Gen.Reflect.altRegisterAnyNewCond = "c == nil" := by
+/-- the source as it is (since /repo fd0bfc5): `registerAnyComposer` builds a new composer unless the one
+filed under the name was made for this very type, like `registerComposer` since 6d5fecb
+(`C06rec-any-composer-unguarded`, fixed). On the source before fd0bfc5 the regenerated condition is
+`"c == nil"` and this theorem fails. -/
+theorem any_composer_guarded_in_source :
+    Gen.Reflect.altRegisterAnyNewCond = "c == nil || c.rtype != rt" ∧
+    Gen.Reflect.altRegisterAnyNewCond = Gen.Reflect.altRegisterNewCond := by
   decide +kernel
 
 end OjgVerif.C06rec
